@@ -1,23 +1,30 @@
 (** C09 — the miss path of [WideColumnCache::get] with the write-count guard
-    (crates/storage/src/wide_column_cache.rs after commit 649e55c).  Executable definitions
-    and witnesses only; the proofs are in FillGuardProof.v.
+    (crates/storage/src/wide_column_cache.rs: guard introduced by commit 649e55c, position
+    of the [fetch_add] corrected by commit cea103e).  Executable definitions and witnesses
+    only; the proofs are in FillGuardProof.v.
 
-    The code:
+    The code as it is now (cea103e):
       get:     loop { c := write_count(key).load();              (GStart)
-                      fast path: entry found => return it;        (Seq (Get k), a hit)
+                      fast path: entry found => return it;        (GSeq (Get k), a hit)
                                  not found                        (GMiss)
                       v := init()   -- store read, no lock held   (GRead)
                       entry(key): Vacant and write_count(key) == c => insert {v, pin 0}
                                   otherwise nothing               (GInstall)
                     }                                             (the loop starts again)
-      insert / remove with [updated]:  write_count(key).fetch_add(1);  tiny_lfu.entry(key, ..)
+      insert / remove with [updated]:  tiny_lfu.entry(key, ..);   (GSeq (Insert ..) / GSeq (Remove ..))
+                                       write_count(key).fetch_add(1)   (GBump)
     [write_count(key)] is one counter per group of keys ([grp], a hash of the key).
 
-    The counter is bumped BEFORE the entry operation of the write and outside the entry lock,
-    so steps of other threads come in between: [BumpBefore] is the code as it is.  Two
-    variants are modelled as well: [BumpInside] (the [fetch_add] inside the closure handed to
-    [tiny_lfu.entry], i.e. atomic with the entry operation as far as [entry]/[get_map] on the
-    same key are concerned) and [BumpAfter] ([fetch_add] after [tiny_lfu.entry] returned).
+    The position of the [fetch_add] relative to the entry operation of the write is the
+    parameter [pos] of the model; both halves of a counted write are steps of their own,
+    steps of other threads come in between:
+    - [BumpAfter]: the code as it is now (cea103e): entry operation, then [fetch_add];
+    - [BumpBefore]: the code of commit 649e55c: [fetch_add], then the entry operation.
+      NOT sufficient: [guard_race_witness], [FillGuardProof.guard_before_refuted]
+      (reproduced on the real code of 649e55c before cea103e was made);
+    - [BumpInside]: a variant that is not in the code: the [fetch_add] inside the closure handed
+      to [tiny_lfu.entry], i.e. atomic with the entry operation as far as [entry]/[get_map] on
+      the same key are concerned.
 
     [wmid] holds, per write batch (= per writer: a batch is [&mut]), the key of a first
     write that is between its two halves.  While a batch is there its writer does nothing
@@ -194,8 +201,8 @@ Definition old_witness (pos : bump_pos) : list gop :=
   end ++
   [GSeq (Submit 0); GSeq BgCommit; GSeq (BgNotify 0 7); GSeq (Evict 7); GInstall 1 7; GSeq (Get 7)].
 
-(** The code as it is: the writer has counted its write and has not yet reached the entry
-    operation; the load starts in this window (it remembers the count that already includes
+(** The ordering of commit 649e55c ([BumpBefore]): the writer has counted its write and has
+    not yet reached the entry operation; the load starts in this window (it remembers the count that already includes
     the write, finds no entry, reads "absent" from the store); then the write is applied,
     becomes durable, is notified and evicted; the install finds the slot vacant and the
     count unchanged and puts "absent" into the cache. *)
